@@ -127,7 +127,9 @@ func TransformModuleFilesToModel( //nolint:funlen,gocognit,cyclop
 			}
 
 			types = append(types, typeDef.GetType())
-			if typeDef.GetMetadata() != nil {
+			// every type of a module file carries the name of its module; the types of a model file carry
+			// metadata too as soon as they have relations, but no module
+			if typeDef.GetMetadata().GetModule() != "" {
 				typeDef.Metadata.SourceInfo = &openfgav1.SourceInfo{
 					File: module.Name,
 				}
